@@ -42,7 +42,8 @@ RULE = ("engine cases built around one definition unit: a variable whose formula
         "wrapper variables whose formula is one dependency with an option; requests walk the whole accept/reject matrix "
         "(6 definition units x 6 request units x sizes 1,2,3 x calculate/calculate_add/calculate_divide at top level, and "
         "x plain/ADD/DIVIDE/both/unknown as dependency options) over start dates including leap years, month ends, ISO "
-        "week 53 and unaligned starts, plus extra in-scope ADD/DIVIDE requests on boundary dates; a case is non-trivial "
+        "week 53 and unaligned starts, the same matrix again with the variables neutralised and/or after valid requests "
+        "have filled their holders, plus extra in-scope ADD/DIVIDE requests on boundary dates; a case is non-trivial "
         "when at least one request carries a claim of the property (a value equality or a mandatory error); distinct by JSON text")
 TRUSTED = ["harness/rules.py: compiler from rule-system terms to real Variable subclasses (formulas call the public API)",
            "harness/c03.py: the independent sub-period / enclosing-period / count computation (datetime, calendar)"]
@@ -368,6 +369,8 @@ def classify(case, obs):
     if obs["main"] == "skip":
         return "skipped-inexact"
     du = case["sys"]["vars"][1]["unit"]
+    if any(v.get("neutral") for v in case["sys"]["vars"]):
+        du += " neutralised"
     tags = set()
     for r, ex, o in zip(case["requests"], obs["expect"], obs["main"]):
         if r[0] == "set":
@@ -470,9 +473,15 @@ def n_tiles_estimate(du, q):
     return n * per[ru] // per[du] if per[ru] >= per[du] else 0
 
 
-def make_case(rng, du, cells):
+def make_case(rng, du, cells, neutral=None, warm_p=0.3):
     """cells: list of (mode, ru, n, want_aligned) with mode in calc/add/div (top-level requests)
-    or dep-plain/dep-add/dep-divide/dep-both/dep-unknown (a wrapper variable)."""
+    or dep-plain/dep-add/dep-divide/dep-both/dep-unknown (a wrapper variable).
+    neutral: which of v1 / v2 are neutralised (None: drawn at random); warm_p: probability that
+    a cell is preceded by a valid plain request of its target for the definition period around
+    the same start date, so that the cell meets a holder that already has a value."""
+    if neutral is None:
+        r = rng.random()
+        neutral = (1,) if r < 0.08 else (2,) if r < 0.16 else (1, 2) if r < 0.2 else ()
     ent = "person" if rng.random() < 0.8 else "group"
     pop = rules.gen_pop(rng, 3)
     count = len(pop["ids"]) if ent == "person" else pop["count"]
@@ -489,6 +498,7 @@ def make_case(rng, du, cells):
     if du == "eternity" and rng.random() < 0.7:
         sets.append(["set", 2, list(ETERNITY), [rng.randint(1, 90) for _ in range(count)]])
     reqs = []
+    warm = []        # valid plain requests made first: the holders are not empty afterwards
     inputs = {}      # period key -> values (for v2)
     need_mult = {}   # period key of cp -> lcm of denominators
     heavy = []       # at most one request that sums over many pieces, placed last
@@ -528,6 +538,11 @@ def make_case(rng, du, cells):
             elif cl is not None and cl[0] == "div":
                 k = json.dumps(cl[1])
                 need_mult.setdefault(k, 1)
+        if rng.random() < warm_p:
+            if du == "eternity":
+                warm.append(["calc", target, gen_q(rng, rng.choice(DATED), 1)])
+            else:
+                warm.append(["calc", target, enclosing(du, q[1] if ru != "eternity" else gen_start(rng, "day"))])
         if mode.startswith("dep-"):
             w = len(vs)
             if ru != "eternity" and n == 1 and rng.random() < 0.5:
@@ -549,12 +564,20 @@ def make_case(rng, du, cells):
                 set_inp(json.loads(k), mult)
         for k, vals in inputs.items():
             sets.append(["set", 2, json.loads(k), vals])
+    for i in neutral:
+        vs[i]["neutral"] = True
+    if 2 in neutral:
+        # a neutralised variable answers its default everywhere: keep DIVIDE dependencies exact
+        mult = 1
+        for m in need_mult.values():
+            mult = mult * m // math.gcd(mult, m)
+        vs[2]["default"] = mult * rng.choice([1, 2]) if mult <= 40000 else 0
     rng.shuffle(reqs)
     cfg = {}
     if heavy and rng.random() < 0.5:
         cfg = {"blacklist": [1], "opt_out": True}   # the summed variable is not stored (cache blacklist)
     sys = {"vars": vs, "params": [], "switches": [], "max_loops": 1}
-    return {"sys": sys, "pop": pop, "cfg": cfg, "requests": sets + reqs + heavy}, leftover
+    return {"sys": sys, "pop": pop, "cfg": cfg, "requests": sets + warm + reqs + heavy}, leftover
 
 
 def matrix_cells():
@@ -573,7 +596,7 @@ IN_SCOPE_ADD = [("day", "day"), ("day", "month"), ("day", "year"), ("month", "mo
 
 def generate(rng, tier):
     reps = {"quick": 1, "escalated": 3, "thorough": 6}[tier]
-    extra = {"quick": 130, "escalated": 500, "thorough": 1500}[tier]
+    extra = {"quick": 100, "escalated": 400, "thorough": 1200}[tier]
     cases = []
     for _ in range(reps):
         by_du = {du: [] for du in UNITS}
@@ -588,6 +611,19 @@ def generate(rng, tier):
                 chunk, i = cells[i:i + k], i + k
                 while chunk:
                     case, chunk = make_case(rng, du, chunk)
+                    cases.append(case)
+    # the same matrix for neutralised variables and for holders that already have values
+    for _ in range(reps):
+        for du in UNITS:
+            cells = [(mode, ru, n, rng.random() < 0.8) for mode in ("calc", "dep-plain", "add", "div")
+                     for ru in UNITS for n in ((1,) if ru == "eternity" else (1, 2, 3))]
+            rng.shuffle(cells)
+            i = 0
+            while i < len(cells):
+                chunk, i = cells[i:i + 3], i + 3
+                neutral = rng.choice([(1,), (2,), (1, 2), (1, 2), ()])
+                while chunk:
+                    case, chunk = make_case(rng, du, chunk, neutral=neutral, warm_p=0.7 if not neutral else 0.3)
                     cases.append(case)
     # extra requests inside the claimed scope, boundary dates, a few unaligned ones
     for _ in range(extra):
@@ -638,7 +674,8 @@ def neighbours(case, rng):
         else:
             q = wrapper_q(case, r)
             cells.append(("dep-" + w[2], q[0], q[2], True))
+    neutral = tuple(i for i in (1, 2) if case["sys"]["vars"][i].get("neutral"))
     for _ in range(12):
-        c, _left = make_case(rng, du, cells)
+        c, _left = make_case(rng, du, cells, neutral=neutral)
         out.append(c)
     return out
